@@ -207,5 +207,41 @@ def delaunay_int(dim, npts, box, rng):
     return np.zeros((dim, 0)), np.zeros((dim + 1, 0), dtype=int)
 
 
-def make(kind, p, t, **kw):
-    return mesh_class(kind)(np.array(p, dtype=np.float64), np.array(t, dtype=np.int64), **kw)
+def represent(P, T, rep):
+    """The same arrays handed over differently (see make)."""
+    if rep == 1:
+        T = T.astype(np.int32)
+    elif rep == 2:
+        P, T = np.asfortranarray(P), np.asfortranarray(T)
+    elif rep == 3:
+        P2 = np.zeros((P.shape[0], 2 * P.shape[1]))
+        P2[:, ::2] = P
+        T2 = np.zeros((T.shape[0], 2 * T.shape[1]), dtype=T.dtype)
+        T2[:, ::2] = T
+        P, T = P2[:, ::2], T2[:, ::2]
+    elif rep == 4:
+        P, T = P.copy(), T.copy()
+        P.setflags(write=False)
+        T.setflags(write=False)
+    return P, T
+
+
+def make(kind, p, t, rep=0, **kw):
+    """rep selects how the SAME arrays are handed over: 0 int64 C-contiguous, 1 int32, 2 Fortran order,
+    3 non-contiguous views of larger arrays, 4 read-only arrays."""
+    P = np.array(p, dtype=np.float64)
+    T = np.array(t, dtype=np.int64)
+    if rep == 1:
+        T = T.astype(np.int32)
+    elif rep == 2:
+        P, T = np.asfortranarray(P), np.asfortranarray(T)
+    elif rep == 3:
+        P2 = np.zeros((P.shape[0], 2 * P.shape[1]))
+        P2[:, ::2] = P
+        T2 = np.zeros((T.shape[0], 2 * T.shape[1]), dtype=np.int64)
+        T2[:, ::2] = T
+        P, T = P2[:, ::2], T2[:, ::2]
+    elif rep == 4:
+        P.setflags(write=False)
+        T.setflags(write=False)
+    return mesh_class(kind)(P, T, **kw)
